@@ -3,7 +3,8 @@
 
   `lfs.read root=<hex root string> nt=<0|1> ofs=<0|1> mnt=<hex real path>,… fs=<entries>` (`mnt`: mount points of other file
   systems, skipped under `ofs`, --one-file-system) runs `LFS.readTree` and prints the
-  record stream `Tar` gets from `NewLocalFS(root).Next()`: `ok <record>;<record>…` or `err`.
+  record stream `Tar` gets from `NewLocalFS(root).Next()`: `ok <record>;<record>…` or `err`; with `tar=1` the archive
+  `Tar` writes from that stream instead (`tarStream`): `ok tar=<hex>`.
   An entry is as for `lfs.untar`, with the kinds `d`, `f`, `l` and `v<type bits>:<major>:<minor>` (a node made by mknod).
   A record is `<hex path>|<hex base>|<hex parent>|<kind>|<mode>|<uid>|<gid>|<mtime>|<size or ->|<hex data>|<hex target>|<major>|<minor>|<khex=vhex,…>`
   (`size` is printed for regular files and symbolic links: for the rest it is the file system's business).
@@ -53,7 +54,12 @@ def cmdLfsRead (a : Args) : String :=
       match readTree zeroEnv (a.bool "nt") (fun q => skips.contains q) fs root with
       | none => "model-out-of-fuel"
       | some (.error _) => "err"
-      | some (.ok recs) => "ok " ++ String.intercalate ";" (recs.map frecStr)
+      | some (.ok recs) =>
+        if a.bool "tar" then
+          match tarStream recs with
+          | some b => "ok tar=" ++ toHex b
+          | none => "err"
+        else "ok " ++ String.intercalate ";" (recs.map frecStr)
   | none => "bad-case"
 
 def runLine6 (l : String) : String :=
